@@ -25,7 +25,21 @@ def run_hcheck(check, tier, seed, log, time_cap=None, extra_cov=None):
                 },
             }
         )
-    out.known = dict(res.known)
+    for sig, (msg, ex) in res.known.items():
+        sp = spaces[ex["space_index"]]
+        out.known[sig] = (
+            msg + "   [space %s; history: %s]" % (sp.name, " ; ".join(codec.show(o) for o in ex["history"])),
+            {
+                "engine": "H",
+                "tier": tier,
+                "oracle": ex["oracle"],
+                "space_index": ex["space_index"],
+                "space": sp.name,
+                "cfg": sp.cfg.to_json(),
+                "history": codec.enc(ex["history"]),
+                "history_text": [codec.show(o) for o in ex["history"]],
+            },
+        )
     exhaustive = not res.capped and not res.violations
     if res.never_fired:
         out.harness_errors.append("vacuous alphabet: operations never enabled: %r" % (res.never_fired[:5],))
